@@ -1,3 +1,518 @@
-/- Property theorems for C19 (stub: not built yet). -/
+/-
+C19  Benchmark runs are exactly-once, resumable and store what was actually predicted.
+Property theorems about SkVerif/Model/Orch.lean (`Orchestrator.fit_predict` over `HDDResults` / `RAMResults`),
+stated against SkVerif/Spec/Orch.lean.  Only theorems + non-vacuity examples here.
+
+Reading guide: `items` is ANY work list (what `_iter` yields), `cfg` ANY store naming scheme (`cfg.disk = true`:
+a store with existence checks such as `HDDResults`), `L` ANY deterministic estimator, `o` ANY option combination,
+`fail` ANY failure point (the k-th fit-or-predict call raises; `none` = no failure), histories are ANY lists of
+runs.  `KeyInj cfg items`: distinct (strategy, dataset, fold, part) have distinct keys (proved for the HDD scheme
+from distinct names in `mkWork_keys_injective`; FALSE for the RAM scheme with underscores in names, see
+`ram_key_collision_witness`).
+-/
+import SkVerif.Lemmas.OrchApi
+import SkVerif.Lemmas.OrchWork
+import SkVerif.Lemmas.OrchOwed
+set_option linter.unusedSectionVars false
 namespace SkVerif.C19
+open SkVerif.Orch SkVerif.Orch.Spec SkVerif.Orch.Lem
+
+variable {N K W : Type} [DecidableEq N] [DecidableEq K]
+
+/-- what a record says, without its time stamp -/
+def Rec.data (r : Rec N) : Content × N × N := (r.c, r.s, r.d)
+
+/-- **Exactly one record per key.**  An uninterrupted run over an empty store ends without error and its record
+map has no duplicate keys and holds exactly the keys of (item, requested part): one record per strategy,
+dataset, fold and requested train/test part, and nothing else.  (RAM stores: with `save_fitted_strategies`
+off, which is the only mode `RAMResults` supports.) -/
+theorem exactly_one_record_per_key (cfg : Cfg N K) (L : Learner W) (o : Opts) (items : List (Item N))
+    (ho : Valid o) (hd : cfg.disk = true ∨ o.saveF = false) :
+    let r := fitPredict cfg L o none items (St.empty : St N K W)
+    r.err = none ∧ (keys r.st.recs).Nodup ∧
+    ∀ k, k ∈ keys r.st.recs ↔ ∃ it ∈ items, ∃ p ∈ parts o, k = rk cfg it p := by
+  intro r
+  have hr : r = finish cfg (runItems cfg L o none items (Run.start St.empty)) := fitPredict_valid cfg L o none ho items _
+  have herr : (runItems cfg L o none items (Run.start (St.empty : St N K W))).err = none :=
+    runItems_noErr cfg L o items _ rfl hd
+  refine ⟨by rw [hr]; simpa using herr, ?_, ?_⟩
+  · rw [hr, finish_recs]
+    exact runItems_nodupR cfg L o none items _ (by simp [Run.start, St.empty, keys])
+  · intro k
+    rw [hr, finish_recs, ← has_iff_mem_keys]
+    constructor
+    · intro hk
+      exact runItems_withinR cfg L o none items (Run.start St.empty) (good_empty cfg L o items).withinR k hk
+    · rintro ⟨it, hit, p, hp, rfl⟩
+      have hc := runItems_complete cfg L o none items _ herr it hit
+      unfold parts at hp
+      cases p
+      · split at hp
+        · rename_i hpot; exact hc.2.1 hpot
+        · simp at hp
+      · exact hc.1
+
+/-- **Every stored record is the honest one.**  After ANY history of runs (any options, failure points, new or
+reused results objects) starting from an empty store, a record stored under the key of (item, part) has
+exactly the instance index, the true values and the predictions of fitting a fresh clone on the item's
+training instances and predicting the part's instances, and carries the item's names; a saved fitted strategy
+holds exactly that fit. -/
+theorem record_eq_honest_fold (cfg : Cfg N K) (L : Learner W) (items : List (Item N)) (hk : KeyInj cfg items)
+    (history : List RunSpec) :
+    ∀ r ∈ runHistory cfg L items (St.empty : St N K W) history, ∀ it ∈ items,
+      (∀ p rec, get? (rk cfg it p) r.st.recs = some rec →
+        rec.c = honest L it p ∧ rec.s = it.s ∧ rec.d = it.d) ∧
+      (∀ sr, get? (sk cfg it) r.st.strats = some sr → sr.w = honestFit L it) := by
+  intro r hr it hit
+  have h := honest_runHistory cfg L items hk history St.empty
+    ⟨(good_empty cfg L ⟨false, false, false, false⟩ items).honestR,
+     (good_empty cfg L ⟨false, false, false, false⟩ items).honestS⟩ r hr
+  exact ⟨fun p rec hg => h.1 it hit p rec hg, fun sr hg => h.2 it hit sr hg⟩
+
+/-- **Reading back = what is stored.**  `load_predictions(fold, part)` succeeds iff a record exists for every
+registered (strategy, dataset) pair, and then returns, pair by pair in registry order, exactly the stored
+record (labelled with the pair's names on disk; with the names it was saved under in memory).
+The csv / pickle round trip itself is NOT modelled: it is observed by the correspondence only. -/
+theorem load_eq_saved (cfg : Cfg N K) (st : St N K W) (fold : Nat) (p : Part) :
+    (∀ rs, loadPredictions cfg st fold p = .ok rs →
+      rs.length = (pairs st).length ∧
+      ∀ sdx ∈ (pairs st).zip rs, get? (cfg.rkey sdx.1.1 sdx.1.2 p fold) st.recs = some sdx.2.2.2 ∧
+        (sdx.2.1, sdx.2.2.1) = (if cfg.disk then sdx.1 else (sdx.2.2.2.s, sdx.2.2.2.d))) ∧
+    ((∀ sd ∈ pairs st, has (cfg.rkey sd.1 sd.2 p fold) st.recs = true) →
+      ∃ rs, loadPredictions cfg st fold p = .ok rs) := by
+  unfold loadPredictions
+  generalize pairs st = ps
+  constructor
+  · induction ps with
+    | nil => intro rs h; simp [loadAll] at h; subst h; simp
+    | cons a t ih =>
+      intro rs h
+      obtain ⟨s, d⟩ := a
+      unfold loadAll at h
+      split at h
+      · cases h
+      · rename_i rr hg
+        split at h
+        · cases h
+        · rename_i rs' hl
+          cases h
+          obtain ⟨il, ih2⟩ := ih rs' hl
+          refine ⟨by simp [il], ?_⟩
+          intro sdx hm
+          rw [List.zip_cons_cons] at hm
+          rcases List.mem_cons.1 hm with e | hm
+          · subst e
+            cases hdk : cfg.disk <;> simp [hg]
+          · exact ih2 sdx hm
+  · induction ps with
+    | nil => intro _; exact ⟨[], rfl⟩
+    | cons a t ih =>
+      intro h
+      obtain ⟨s, d⟩ := a
+      obtain ⟨rs', hrs'⟩ := ih (fun sd hsd => h sd (List.mem_cons_of_mem _ hsd))
+      have hh := h (s, d) List.mem_cons_self
+      simp only [has, Option.isSome_iff_exists] at hh
+      obtain ⟨rr, hrr⟩ := hh
+      exact ⟨_, by unfold loadAll; simp only [hrr, hrs']; rfl⟩
+
+/-- **Resume completes to the uninterrupted store.**  On a store with existence checks, with overwriting
+disabled: after ANY sequence of earlier runs with the same options (each failing at any call, or not at all,
+each over a new or the reused results object) a run without failure ends without error, and its record map
+and its saved-strategy map equal those of one uninterrupted run over an empty store (key by key; time stamps
+aside).  Registry: see `resume_registry_complete_partial`. -/
+theorem resume_completes_to_uninterrupted (cfg : Cfg N K) (L : Learner W) (o : Opts) (items : List (Item N))
+    (hd : cfg.disk = true) (hk : KeyInj cfg items) (_hP : o.owP = false) (hF : o.owF = false)
+    (earlier : List RunSpec) (hsame : ∀ rs ∈ earlier, rs.o = o) (fresh : Bool) :
+    let r2 := runOne cfg L items (stateAfter cfg L items (St.empty : St N K W) earlier) ⟨o, none, fresh⟩
+    let rU := fitPredict cfg L o none items (St.empty : St N K W)
+    r2.err = none ∧
+    (∀ k, (get? k r2.st.recs).map Rec.data = (get? k rU.st.recs).map Rec.data) ∧
+    (∀ k, (get? k r2.st.strats).map (·.w) = (get? k rU.st.strats).map (·.w)) := by
+  intro r2 rU
+  have ho : Valid o := by simp [Valid, hF]
+  -- both runs: no error, good store, complete
+  have key : ∀ st : St N K W, Good cfg L o items st →
+      let r := fitPredict cfg L o none items st
+      r.err = none ∧ Good cfg L o items r.st ∧ ∀ it ∈ items, CompleteItem cfg o r.st it := by
+    intro st hg r
+    have hr : r = finish cfg (runItems cfg L o none items (Run.start st)) := fitPredict_valid cfg L o none ho items _
+    have herr := (runItems_ok cfg L o items (keyInj_pairwise cfg items hk) (Run.start st) rfl (Or.inl hd)).1
+    refine ⟨by rw [hr]; simpa using herr, good_fitPredict cfg L o none items hk st hg, ?_⟩
+    intro it hit
+    have hc := runItems_complete cfg L o none items _ herr it hit
+    rw [hr]
+    exact ⟨by simpa using hc.1, fun h => by simpa using hc.2.1 h, fun h => by simpa using hc.2.2 h⟩
+  have g1 := good_stateAfter cfg L o items hk earlier hsame St.empty (good_empty cfg L o items)
+  have k2 : r2.err = none ∧ Good cfg L o items r2.st ∧ ∀ it ∈ items, CompleteItem cfg o r2.st it := by
+    show (runOne cfg L items _ ⟨o, none, fresh⟩).err = none ∧ _
+    unfold runOne
+    cases fresh
+    · exact key _ g1
+    · exact key _ (good_freshObj cfg L o items _ g1)
+  have kU := key St.empty (good_empty cfg L o items)
+  obtain ⟨e2, g2, c2⟩ := k2
+  obtain ⟨_, gU, cU⟩ := kU
+  -- two good complete stores agree key by key
+  have agreeR : ∀ (a b : St N K W), Good cfg L o items a → (∀ it ∈ items, CompleteItem cfg o a it) →
+      Good cfg L o items b → (∀ it ∈ items, CompleteItem cfg o b it) →
+      ∀ k, (get? k a.recs).map Rec.data = (get? k b.recs).map Rec.data := by
+    intro a b ga ca gb cb k
+    have side : ∀ (x y : St N K W), Good cfg L o items x → Good cfg L o items y →
+        (∀ it ∈ items, CompleteItem cfg o y it) → ∀ v, get? k x.recs = some v →
+        ∃ v', get? k y.recs = some v' ∧ Rec.data v = Rec.data v' := by
+      intro x y gx gy cy v hv
+      obtain ⟨it, hit, p, hp, e⟩ := gx.withinR k (get?_some_has hv)
+      subst e
+      have hy : has (rk cfg it p) y.recs = true := by
+        unfold parts at hp
+        cases p
+        · split at hp
+          · rename_i hpot; exact (cy it hit).2.1 hpot
+          · simp at hp
+        · exact (cy it hit).1
+      simp only [has, Option.isSome_iff_exists] at hy
+      obtain ⟨v', hv'⟩ := hy
+      refine ⟨v', hv', ?_⟩
+      obtain ⟨a1, a2, a3⟩ := gx.honestR it hit p v hv
+      obtain ⟨b1, b2, b3⟩ := gy.honestR it hit p v' hv'
+      simp [Rec.data, a1, a2, a3, b1, b2, b3]
+    cases ha : get? k a.recs with
+    | some v =>
+      obtain ⟨v', hv', e⟩ := side a b ga gb cb v ha
+      simp [hv', e]
+    | none =>
+      cases hb : get? k b.recs with
+      | none => rfl
+      | some v' =>
+        obtain ⟨v, hv, _⟩ := side b a gb ga ca v' hb
+        rw [ha] at hv; cases hv
+  have agreeS : ∀ (a b : St N K W), Good cfg L o items a → (∀ it ∈ items, CompleteItem cfg o a it) →
+      Good cfg L o items b → (∀ it ∈ items, CompleteItem cfg o b it) →
+      ∀ k, (get? k a.strats).map (·.w) = (get? k b.strats).map (·.w) := by
+    intro a b ga ca gb cb k
+    have side : ∀ (x y : St N K W), Good cfg L o items x → Good cfg L o items y →
+        (∀ it ∈ items, CompleteItem cfg o y it) → ∀ v, get? k x.strats = some v →
+        ∃ v', get? k y.strats = some v' ∧ v.w = v'.w := by
+      intro x y gx gy cy v hv
+      obtain ⟨hs, it, hit, e⟩ := gx.withinS k (get?_some_has hv)
+      subst e
+      have hy := (cy it hit).2.2 hs
+      simp only [has, Option.isSome_iff_exists] at hy
+      obtain ⟨v', hv'⟩ := hy
+      exact ⟨v', hv', by rw [gx.honestS it hit v hv, gy.honestS it hit v' hv']⟩
+    cases ha : get? k a.strats with
+    | some v =>
+      obtain ⟨v', hv', e⟩ := side a b ga gb cb v ha
+      simp [hv', e]
+    | none =>
+      cases hb : get? k b.strats with
+      | none => rfl
+      | some v' =>
+        obtain ⟨v, hv, _⟩ := side b a gb ga ca v' hb
+        rw [ha] at hv; cases hv
+  exact ⟨e2, agreeR _ _ g2 c2 gU cU, agreeS _ _ g2 c2 gU cU⟩
+
+/-- **Completed work is neither modified ...**  On a store with existence checks, a run with
+`overwrite_predictions` off (failing anywhere or not, new or reused results object) leaves every record that
+existed before identical, time stamp included; with `overwrite_fitted_strategies` off the same holds for
+every saved fitted strategy.  ("nor recomputed": `resume_produces_exactly_missing`.) -/
+theorem resume_does_not_touch_completed (cfg : Cfg N K) (L : Learner W) (o : Opts) (items : List (Item N))
+    (hd : cfg.disk = true) (fail : Option Nat) (fresh : Bool) (st : St N K W) :
+    let r := runOne cfg L items st ⟨o, fail, fresh⟩
+    (o.owP = false → ∀ k v, get? k st.recs = some v → get? k r.st.recs = some v) ∧
+    (o.owF = false → ∀ k v, get? k st.strats = some v → get? k r.st.strats = some v) := by
+  intro r
+  have hst : ∀ st0 : St N K W, st0.recs = st.recs → st0.strats = st.strats →
+      (o.owP = false → ∀ k v, get? k st.recs = some v → get? k (fitPredict cfg L o fail items st0).st.recs = some v) ∧
+      (o.owF = false → ∀ k v, get? k st.strats = some v → get? k (fitPredict cfg L o fail items st0).st.strats = some v) := by
+    intro st0 e1 e2
+    by_cases ho : Valid o
+    · rw [fitPredict_valid cfg L o fail ho]
+      refine ⟨fun hP k v h => ?_, fun hF k v h => ?_⟩
+      · rw [finish_recs]; exact runItems_keepR cfg L o fail hd hP items _ k v (by simpa [Run.start, e1] using h)
+      · rw [finish_strats]; exact runItems_keepS cfg L o fail hd hF items _ k v (by simpa [Run.start, e2] using h)
+    · rw [fitPredict_invalid cfg L o fail ho]
+      exact ⟨fun _ k v h => by simpa [Run.start, e1] using h, fun _ k v h => by simpa [Run.start, e2] using h⟩
+  show (_ → ∀ k v, _ → get? k (runOne cfg L items st ⟨o, fail, fresh⟩).st.recs = some v) ∧ _
+  unfold runOne
+  cases fresh
+  · exact hst st rfl rfl
+  · exact hst (freshObj cfg st) (freshObj_recs_disk cfg hd st) (freshObj_strats_disk cfg hd st)
+
+/-- **... nor recomputed; exactly the missing ones are produced.**  On a store with existence checks, a run
+with overwriting disabled in which no call fails makes, item by item in work-list order, exactly the calls the
+store owes: nothing for an item whose requested records (and fitted strategy, if requested) all exist; else one
+fit and one predict per requested part whose record is missing.  It writes exactly the missing records and
+(if requested) the missing fitted strategies, and nothing else. -/
+theorem resume_produces_exactly_missing (cfg : Cfg N K) (L : Learner W) (o : Opts) (items : List (Item N))
+    (hd : cfg.disk = true) (hk : KeyInj cfg items) (hP : o.owP = false) (hF : o.owF = false) (st : St N K W) :
+    let r := fitPredict cfg L o none items st
+    r.err = none ∧
+    r.log = items.flatMap (owedCalls cfg o st) ∧
+    r.wrRecs = items.flatMap (owedRecs cfg o st) ∧
+    r.wrStrats = items.flatMap (owedStrats cfg o st) := by
+  intro r
+  have ho : Valid o := by simp [Valid, hF]
+  have hr : r = finish cfg (runItems cfg L o none items (Run.start st)) := fitPredict_valid cfg L o none ho items _
+  obtain ⟨e1, e2, e3, e4⟩ := runItems_ok cfg L o items (keyInj_pairwise cfg items hk) (Run.start st) rfl (Or.inl hd)
+  rw [hr]
+  refine ⟨by simpa using e1, ?_, ?_, ?_⟩
+  · rw [finish_log, e2]; simp only [Run.start, List.nil_append]
+    exact flatMap_congr' items _ _ (fun it _ => (owed_eq cfg o hd hP hF st it).1)
+  · rw [finish_wrRecs, e3]; simp only [Run.start, List.nil_append]
+    exact flatMap_congr' items _ _ (fun it _ => (owed_eq cfg o hd hP hF st it).2.1)
+  · rw [finish_wrStrats, e4]; simp only [Run.start, List.nil_append]
+    exact flatMap_congr' items _ _ (fun it _ => (owed_eq cfg o hd hP hF st it).2.2)
+
+/-- **A further identical run performs no fits.**  On a store with existence checks: after a run that ended
+without error (any options, any earlier store), a run with the same `predict_on_train` /
+`save_fitted_strategies` options and overwriting disabled makes no estimator call at all (so no failure point
+can hit), writes nothing, and leaves records and saved strategies as they are. -/
+theorem rerun_performs_no_fits (cfg : Cfg N K) (L : Learner W) (o1 : Opts) (items : List (Item N))
+    (hd : cfg.disk = true) (ho1 : Valid o1) (fail1 fail2 : Option Nat) (fresh : Bool) (st : St N K W) :
+    let r1 := fitPredict cfg L o1 fail1 items st
+    let o2 : Opts := { o1 with owP := false, owF := false }
+    let r2 := runOne cfg L items r1.st ⟨o2, fail2, fresh⟩
+    r1.err = none →
+      r2.err = none ∧ r2.log = [] ∧ r2.wrRecs = [] ∧ r2.wrStrats = [] ∧
+      r2.st.recs = r1.st.recs ∧ r2.st.strats = r1.st.strats := by
+  intro r1 o2 r2 herr
+  have hr1 : r1 = finish cfg (runItems cfg L o1 fail1 items (Run.start st)) := fitPredict_valid cfg L o1 fail1 ho1 items _
+  have herr' : (runItems cfg L o1 fail1 items (Run.start st)).err = none := by rw [hr1] at herr; simpa using herr
+  have hc : ∀ it ∈ items, CompleteItem cfg o2 r1.st it := by
+    intro it hit
+    have := runItems_complete cfg L o1 fail1 items _ herr' it hit
+    rw [hr1]
+    exact ⟨by simpa using this.1, fun h => by simpa using this.2.1 h, fun h => by simpa using this.2.2 h⟩
+  have ho2 : Valid o2 := by simp [Valid, o2]
+  have main : ∀ st0 : St N K W, st0.recs = r1.st.recs → st0.strats = r1.st.strats →
+      let r := fitPredict cfg L o2 fail2 items st0
+      r.err = none ∧ r.log = [] ∧ r.wrRecs = [] ∧ r.wrStrats = [] ∧ r.st.recs = r1.st.recs ∧ r.st.strats = r1.st.strats := by
+    intro st0 e1 e2 r
+    have hc0 : ∀ it ∈ items, CompleteItem cfg o2 (Run.start st0).st it := by
+      intro it hit
+      have := hc it hit
+      unfold CompleteItem at this ⊢
+      simpa [Run.start, e1, e2] using this
+    have hn := runItems_noop cfg L o2 fail2 hd rfl rfl items (Run.start st0) hc0
+    have hr : r = finish cfg (runItems cfg L o2 fail2 items (Run.start st0)) := fitPredict_valid cfg L o2 fail2 ho2 items _
+    rw [hr, hn]
+    simp [Run.start, e1, e2]
+  show (runOne cfg L items r1.st ⟨o2, fail2, fresh⟩).err = none ∧ _
+  unfold runOne
+  cases fresh
+  · exact main r1.st rfl rfl
+  · exact main (freshObj cfg r1.st) (freshObj_recs_disk cfg hd _) (freshObj_strats_disk cfg hd _)
+
+/-- **Overwriting recomputes every record.**  With `overwrite_predictions` on, a run in which no call fails,
+over ANY store, fits every item once and predicts every requested part once, in work-list order, and
+(re)writes every requested record. -/
+theorem overwrite_recomputes_all (cfg : Cfg N K) (L : Learner W) (o : Opts) (items : List (Item N))
+    (hd : cfg.disk = true ∨ o.saveF = false) (hk : KeyInj cfg items) (ho : Valid o) (hP : o.owP = true)
+    (st : St N K W) :
+    let r := fitPredict cfg L o none items st
+    r.err = none ∧
+    r.log = items.flatMap (allCalls o) ∧
+    r.wrRecs = items.flatMap (fun it => (parts o).map (rk cfg it)) := by
+  intro r
+  have hr : r = finish cfg (runItems cfg L o none items (Run.start st)) := fitPredict_valid cfg L o none ho items _
+  obtain ⟨e1, e2, e3, _⟩ := runItems_ok cfg L o items (keyInj_pairwise cfg items hk) (Run.start st) rfl hd
+  rw [hr]
+  refine ⟨by simpa using e1, ?_, ?_⟩
+  · rw [finish_log, e2]; simp only [Run.start, List.nil_append]
+    exact flatMap_congr' items _ _ (fun it _ => (overwrite_eq cfg o hP _ it).1)
+  · rw [finish_wrRecs, e3]; simp only [Run.start, List.nil_append]
+    exact flatMap_congr' items _ _ (fun it _ => (overwrite_eq cfg o hP _ it).2)
+
+/-- **Exactly once.**  An uninterrupted run over an empty store fits every item exactly once and predicts
+every requested part exactly once, in work-list order (whatever the overwrite flags), and writes every
+requested record exactly once. -/
+theorem uninterrupted_log_exactly_once (cfg : Cfg N K) (L : Learner W) (o : Opts) (items : List (Item N))
+    (hd : cfg.disk = true ∨ o.saveF = false) (hk : KeyInj cfg items) (ho : Valid o) :
+    let r := fitPredict cfg L o none items (St.empty : St N K W)
+    r.err = none ∧
+    r.log = items.flatMap (allCalls o) ∧
+    r.wrRecs = items.flatMap (fun it => (parts o).map (rk cfg it)) := by
+  intro r
+  have hr : r = finish cfg (runItems cfg L o none items (Run.start St.empty)) := fitPredict_valid cfg L o none ho items _
+  obtain ⟨e1, e2, e3, _⟩ := runItems_ok cfg L o items (keyInj_pairwise cfg items hk) (Run.start St.empty) rfl hd
+  rw [hr]
+  refine ⟨by simpa using e1, ?_, ?_⟩
+  · rw [finish_log, e2]; simp only [Run.start, List.nil_append]
+    exact flatMap_congr' items _ _ (fun it _ => (empty_eq cfg o it).1)
+  · rw [finish_wrRecs, e3]; simp only [Run.start, List.nil_append]
+    exact flatMap_congr' items _ _ (fun it _ => (empty_eq cfg o it).2)
+
+/-! ### the registry of strategy / dataset names
+
+Full-strength statement (what the property text asks: "the final store equals that of an uninterrupted run",
+the registry and the master file being part of the store):
+
+    after ANY earlier runs and a final run that ends without error, every strategy and dataset of the work
+    list is named in `results.strategy_names / dataset_names` and in the master file.
+
+This is FALSE for the code as it is (`resume_registry_incomplete_witness`): names are registered only when
+something is saved, the master file is written only by the final `save()`, and a new results object starts
+with an empty registry, so work completed before a crash is never registered again.  Proved instead: the
+statement under the hypothesis that the live registry covers what is stored (`RegCov`), which holds whenever
+the results object is the one that has been used since the store was empty
+(`registry_covers_when_object_reused`). -/
+
+/-- the live registry names every item that has something stored -/
+abbrev RegistryCovers (cfg : Cfg N K) (items : List (Item N)) (st : St N K W) : Prop := RegCov cfg items st
+
+theorem resume_registry_complete_partial (cfg : Cfg N K) (L : Learner W) (o : Opts) (items : List (Item N))
+    (hd : cfg.disk = true) (hk : KeyInj cfg items) (ho : Valid o) (fail : Option Nat) (st : St N K W)
+    (hcov : RegistryCovers cfg items st) :
+    let r := fitPredict cfg L o fail items st
+    r.err = none → ∀ it ∈ items,
+      it.s ∈ r.st.regS ∧ it.d ∈ r.st.regD ∧
+      ∃ ms md, r.st.master = some (ms, md) ∧ it.s ∈ ms ∧ it.d ∈ md := by
+  intro r herr it hit
+  have hr : r = finish cfg (runItems cfg L o fail items (Run.start st)) := fitPredict_valid cfg L o fail ho items _
+  have herr' : (runItems cfg L o fail items (Run.start st)).err = none := by rw [hr] at herr; simpa using herr
+  have hc := runItems_complete cfg L o fail items _ herr' it hit
+  have hcov' := runItems_regCov cfg L o fail items items (fun _ h => h) hk (Run.start st) hcov it hit
+    (Or.inl ⟨.test, hc.1⟩)
+  rw [hr]
+  unfold finish
+  simp only [herr', Option.isSome_none, Bool.false_eq_true, if_false]
+  generalize (runItems cfg L o fail items (Run.start st)).st = s1 at hcov'
+  unfold save
+  simp only [hd, if_true]
+  cases hm : s1.master with
+  | none => exact ⟨hcov'.1, hcov'.2, s1.regS, s1.regD, rfl, hcov'.1, hcov'.2⟩
+  | some m =>
+    obtain ⟨ms, md⟩ := m
+    have h1 : it.s ∈ dedup (s1.regS ++ ms) := (mem_dedup _ _).2 (List.mem_append_left _ hcov'.1)
+    have h2 : it.d ∈ dedup (s1.regD ++ md) := (mem_dedup _ _).2 (List.mem_append_left _ hcov'.2)
+    exact ⟨h1, h2, _, _, rfl, h1, h2⟩
+
+/-- the hypothesis of `resume_registry_complete_partial` holds along every history that keeps using the same
+results object from the empty store on (any options, any failure points) -/
+theorem registry_covers_when_object_reused (cfg : Cfg N K) (L : Learner W) (items : List (Item N))
+    (hk : KeyInj cfg items) (history : List RunSpec) (hsame : ∀ rs ∈ history, rs.fresh = false) :
+    RegistryCovers cfg items (stateAfter cfg L items (St.empty : St N K W) history) := by
+  have step : ∀ (o : Opts) (fail : Option Nat) (st : St N K W), RegCov cfg items st →
+      RegCov cfg items (fitPredict cfg L o fail items st).st := by
+    intro o fail st h
+    by_cases ho : Valid o
+    · rw [fitPredict_valid cfg L o fail ho]
+      have h1 := runItems_regCov cfg L o fail items items (fun _ h => h) hk (Run.start st) h
+      generalize runItems cfg L o fail items (Run.start st) = r1 at h1
+      unfold finish
+      split
+      · exact h1
+      · intro it hit hex
+        have := h1 it hit (by simpa using hex)
+        show it.s ∈ (save cfg r1.st).regS ∧ it.d ∈ (save cfg r1.st).regD
+        unfold save
+        split
+        · split
+          · exact this
+          · exact ⟨(mem_dedup _ _).2 (List.mem_append_left _ this.1), (mem_dedup _ _).2 (List.mem_append_left _ this.2)⟩
+        · exact this
+    · rw [fitPredict_invalid cfg L o fail ho]; exact h
+  have : ∀ (st : St N K W), RegCov cfg items st → RegCov cfg items (stateAfter cfg L items st history) := by
+    induction history with
+    | nil => intro st h; exact h
+    | cons a t ih =>
+      intro st h
+      unfold stateAfter
+      rw [List.foldl_cons]
+      apply ih (fun rs hrs => hsame rs (List.mem_cons_of_mem _ hrs))
+      have hf := hsame a List.mem_cons_self
+      unfold runOne
+      rw [hf]
+      exact step a.o a.fail st h
+  exact this _ (fun it _ hex => by
+    rcases hex with ⟨p, hp⟩ | hp
+    · simp [St.empty, has] at hp
+    · simp [St.empty, has] at hp)
+
+/-! concrete witnesses -/
+
+/-- a trivial estimator and a two-strategy, one-fold work list over the HDD naming scheme -/
+def wL : Learner Unit := ⟨fun _ _ _ => (), fun _ X => X.map (fun _ => 0)⟩
+def wData : Data := ⟨[[0, 0], [1, 1], [2, 0]], 1, none⟩
+def wItems : List (Item Nat) := [⟨0, 0, 0, wData, 0, [0, 1], [2]⟩, ⟨1, 0, 0, wData, 0, [0, 1], [2]⟩]
+def wOpts : Opts := ⟨false, false, false, false⟩
+
+/-- **The registry defect, concretely** (negation of the full-strength registry statement).  Strategies 0 and 1
+on one dataset and one fold, `HDDResults`-style store.  Run 1: the 3rd estimator call (strategy 1's fit)
+raises, after strategy 0 is complete.  Run 2: a new results object over the same path, no failure, ends
+without error; both records are on disk -- but the registry and the master file name strategy 1 only, and
+`load_predictions` yields one record instead of two. -/
+theorem resume_registry_incomplete_witness :
+    let st1 := (runOne (hddCfg Nat) wL wItems (St.empty : St Nat _ Unit) ⟨wOpts, some 3, true⟩).st
+    let r2 := runOne (hddCfg Nat) wL wItems st1 ⟨wOpts, none, true⟩
+    r2.err = none ∧ (∀ it ∈ wItems, has (rk (hddCfg Nat) it .test) r2.st.recs = true) ∧
+    r2.st.regS = [1] ∧ r2.st.master = some ([1], [0]) ∧
+    (loadPredictions (hddCfg Nat) r2.st 0 .test).toOption.map List.length = some 1 := by
+  decide
+
+/-- **RAM keys are not injective** (so `KeyInj ramCfg` fails for such names): strategy "a" on dataset "b_c" and
+strategy "a_b" on dataset "c" share every key. -/
+theorem ram_key_collision_witness :
+    ("a", "b_c") ≠ ("a_b", "c") ∧ ∀ p f, ramCfg.rkey "a" "b_c" p f = ramCfg.rkey "a_b" "c" p f := by
+  refine ⟨by decide, ?_⟩
+  intro p f
+  show ramKey "a" "b_c" p f = ramKey "a_b" "c" p f
+  unfold ramKey
+  have : "a" ++ "_" ++ "b_c" = "a_b" ++ "_" ++ "c" := by decide
+  rw [this]
+
+/-- **The real work list has injective keys on disk.**  For the work list `_iter` builds (datasets × strategies ×
+folds) and the `HDDResults` naming scheme, distinct strategy names (checked by `Orchestrator.__init__`) and
+distinct dataset names (NOT checked by the code: an assumption) give distinct keys for distinct (strategy,
+dataset, fold, part), and no item occurs twice.  So every theorem above applies to `mkWork` over `hddCfg`. -/
+theorem mkWork_keys_injective (dss : List (DS N)) (strats : List (Strat N))
+    (hd : (dss.map (·.name)).Nodup) (hs : (strats.map (·.name)).Nodup) :
+    KeyInj (hddCfg N) (mkWork dss strats) :=
+  mkWork_keyInj dss strats hd hs
+
+/-- `Orchestrator.__init__` accepts only duplicate-free strategy names (the hypothesis `hs` above) -/
+theorem validate_ok_names_nodup (nt nd : Nat) (names : List String) (h : validate nt nd names = .ok ()) :
+    (dedup names).length = names.length ∧ nt = nd := by
+  unfold validate at h
+  split at h
+  · cases h
+  · split at h
+    · cases h
+    · rename_i h1 h2
+      exact ⟨by simpa using h2, by simpa using h1⟩
+
+/-! ### non-vacuity: the hypotheses above are met by a concrete, non-trivial configuration -/
+
+example : wItems = mkWork [⟨0, wData, [([0, 1], [2])]⟩] [⟨0, 0⟩, ⟨1, 0⟩] := by decide
+/-- injective keys (hypothesis `hk`) -/
+example : KeyInj (hddCfg Nat) wItems :=
+  mkWork_keys_injective [⟨0, wData, [([0, 1], [2])]⟩] [⟨0, 0⟩, ⟨1, 0⟩] (by decide) (by decide)
+/-- accepted options (`ho`), overwriting disabled (`hP`, `hF`) -/
+example : Valid wOpts ∧ wOpts.owP = false ∧ wOpts.owF = false := by unfold Valid; decide
+/-- failure points really interrupt: the 1st, 2nd, 3rd and 4th call raising each ends the run with the injected
+error; a 5th call does not exist -/
+example : ∀ k ∈ [1, 2, 3, 4], (fitPredict (hddCfg Nat) wL wOpts (some k) wItems (St.empty : St Nat _ Unit)).err = some .inject := by
+  decide
+example : (fitPredict (hddCfg Nat) wL wOpts (some 5) wItems (St.empty : St Nat _ Unit)).err = none := by decide
+/-- the crashed run of `resume_completes_to_uninterrupted` leaves a partial store (1 of 2 records) -/
+example : (keys (runOne (hddCfg Nat) wL wItems (St.empty : St Nat _ Unit) ⟨wOpts, some 3, true⟩).st.recs).length = 1 := by
+  decide
+/-- `rerun_performs_no_fits`: the first run does end without error and stores records -/
+example : (fitPredict (hddCfg Nat) wL wOpts none wItems (St.empty : St Nat _ Unit)).err = none ∧
+    (keys (fitPredict (hddCfg Nat) wL wOpts none wItems (St.empty : St Nat _ Unit)).st.recs).length = 2 := by decide
+/-- `load_eq_saved`: after the uninterrupted run every registered pair has its record and loading succeeds -/
+example : ((loadPredictions (hddCfg Nat) (fitPredict (hddCfg Nat) wL wOpts none wItems (St.empty : St Nat _ Unit)).st 0 .test).toOption.map
+    List.length) = some 2 := by decide
+/-- `RegistryCovers` holds e.g. after a crash when the same results object is kept -/
+example : RegistryCovers (hddCfg Nat) wItems
+    (stateAfter (hddCfg Nat) wL wItems (St.empty : St Nat _ Unit) [⟨wOpts, some 3, false⟩]) :=
+  registry_covers_when_object_reused (hddCfg Nat) wL wItems
+    (mkWork_keys_injective [⟨0, wData, [([0, 1], [2])]⟩] [⟨0, 0⟩, ⟨1, 0⟩] (by decide) (by decide)) _ (by decide)
+/-- RAM store: `save_fitted_strategies=True` (the default) is refused with NotImplementedError after the first fit -/
+example : (fitPredict ramCfg wL ⟨false, false, true, false⟩ none
+    [(⟨"a", 0, "d", wData, 0, [0, 1], [2]⟩ : Item String)] (St.empty : St String _ Unit)).err = some .notImpl := by decide
+/-- the honest record of the first witness item: index [2], true value 0, prediction 0 -/
+example : honest wL (⟨0, 0, 0, wData, 0, [0, 1], [2]⟩ : Item Nat) .test = ⟨[2], [0], [0]⟩ := by decide
+
 end SkVerif.C19
